@@ -21,6 +21,7 @@ import (
 	"fmt"
 	"io"
 	"strings"
+	"unicode/utf8"
 )
 
 type token int
@@ -377,6 +378,14 @@ func (t *tokenizer) ReadValue(tok token) (string, error) {
 
 	if err != nil {
 		return "", err
+	}
+
+	switch tok {
+	case tokenString, tokenLongString, tokenSymbolQuoted:
+		// Ion text is Unicode: the content of strings and symbols must be well-formed UTF-8.
+		if !utf8.ValidString(str) {
+			return "", &SyntaxError{"invalid UTF-8 sequence in string or symbol", t.pos - 1}
+		}
 	}
 
 	t.unfinished = false
